@@ -21,6 +21,7 @@ enum { V_CREATE = 0, /* g */
        V_VSDELETE,   /* x=vdata index */
        V_DETACH,     /* g */
        V_ATTACH,     /* g */
+       V_ATTACH2,    /* g : attach again while still attached (second handle), then release the second handle */
        V_REOPEN,     /* x=access */
        V_CHECK,      /* full comparison */
        V_END };
@@ -200,6 +201,13 @@ void harness(void)
                 H4V_ASSERT(G[g].key != FAIL, "C08.S1.attach");
                 G[g].attached = 1;
                 break;
+            case V_ATTACH2: {
+                int32 k2 = Vattach(fid, G[g].ref, "w");
+                H4V_ASSERT(k2 != FAIL, "C08.S1.attach2");
+                H4V_ASSERT(Vntagrefs(k2) == G[g].nm, "C08.S1.attach2.view: second handle sees another member count");
+                H4V_ASSERT(Vdetach(k2) == SUCCEED, "C08.S1.detach2");
+                break;
+            }
             case V_REOPEN:
                 for (i = 0; i < NG; i++) if (G[i].exists && G[i].attached) { H4V_ASSERT(Vdetach(G[i].key) == SUCCEED, "C08.S1.detach.all"); G[i].attached = 0; }
                 H4V_ASSERT(Vend(fid) == SUCCEED, "C08.S1.vend");
